@@ -1483,7 +1483,7 @@ struct array : static_array<T, D, Alloc> {
 		}
 		auto const is = intersection(this->extensions(), extensions);
 		if(is.num_elements() != 0) {
-			tmp.apply(is) = this->apply(is);  // TODO(correaa) : use (and implement) `.move();`
+			tmp.apply(is).elements() = this->apply(is).elements();  // TODO(correaa) : use (and implement) `.move();`  // (the two blocks may have different index bases)
 		}
 		this->destroy();
 		this->deallocate();
@@ -1516,7 +1516,7 @@ struct array : static_array<T, D, Alloc> {
 		this->uninitialized_fill_n(tmp.data_elements(), static_cast<typename multi::allocator_traits<typename array::allocator_type>::size_type>(tmp.num_elements()), elem);
 		auto const is = intersection(this->extensions(), exs);
 		if(is.num_elements() != 0) {
-			tmp.apply(is) = this->apply(is);
+			tmp.apply(is).elements() = this->apply(is).elements();  // (the two blocks may have different index bases)
 		}
 		this->destroy();
 		this->deallocate();
